@@ -84,11 +84,44 @@ theorem checkHeader_ok (h h' : Header) (hc : checkHeader h = .ok h') :
         · injection hc with hc
           exact ⟨hc.symm, by tauto, by assumption, by assumption, by omega⟩
 
+/-- the last event of a log -/
+def lastEv : List Value → Value
+  | [] => .unit
+  | [x] => x
+  | _ :: y :: r => lastEv (y :: r)
+
+theorem lastEv_append_cons (a : List Value) (x : Value) (b : List Value) : lastEv (a ++ x :: b) = lastEv (x :: b) := by
+  induction a with
+  | nil => rfl
+  | cons y a ih =>
+    cases a with
+    | nil => simp [lastEv]
+    | cons z a => simpa [lastEv] using ih
+
+theorem lastEv_append_append (a b : List Value) (x : Value) (c : List Value) :
+    lastEv (a ++ (b ++ x :: c)) = lastEv (x :: c) := by
+  rw [← List.append_assoc, lastEv_append_cons]
+
+/-- the memory ordering (as a Rust value) of a store event -/
+def storeOrd : Value → Value
+  | .ext "store" [_, _, o] => o
+  | _ => .unit
+
+/-- the ordering the LAST event of a run names, if it is a store: for `ShmWriter::new` the version store — "the
+    ordering the source names", read off by evaluation -/
+def lastOrdV : Outcome → Value
+  | .ok _ _ l => storeOrd (lastEv l)
+  | _ => .unit
+
+theorem ordValue_ordOfValue (v : Value) (o : SL.Ord) (h : ordOfValue v = some o) : v = ordValue o := by
+  unfold ordOfValue at h
+  split at h <;> first | (injection h with h; subst h; rfl) | cases h
+
 /-- `Result<(), ShmError>` of `is_usable_segment` -/
 def usableValue : Except ShmErr Header → Value
   | .ok _ => okUnit
   | .error e => .enumv "Err" [shmErrValue e]
 
-rs_realize_eqns wipeEvents mapEvents openDecision openCount openEvents2 openEvents usableValue
+rs_realize_eqns lastEv storeOrd lastOrdV wipeEvents mapEvents openDecision openCount openEvents2 openEvents usableValue
 
 end ClockBound.Rs.WriterNewProof
